@@ -33,6 +33,7 @@ MAP = [
     ("C30", r"dynamic:execute_stream:execute-hook", "71827b0"),
     ("C33", r"check_types_exists:Interface:implements", "d483a95"),
     ("C35", r"get-without-mutation-gate:", "0124b3a"),
+    ("C03", r"path-overwritten:", "925689f"),
 ]
 d = json.load(open(P))
 keep = []
